@@ -145,3 +145,28 @@ Definition accepted (r : option (list flag)) : bool := match r with Some _ => tr
 (* comparison with the implementation-side mirror (harness/props/resp_trace.py) *)
 Definition resp_agree (r : option (list flag)) (acc a : bool) : bool :=
   Bool.eqb (accepted r) acc && Bool.eqb (has_flag r) a.
+
+(* ------------------------------------------------------------------ C12 (ii): a failed status reaches a plan promptly *)
+(* armed = a status object has failed and nothing has been thrown into a plan since *)
+Definition s_obs (a : bool) (o : obs) : option bool :=
+  match o with
+  | OMsg _ => if a then None else Some false          (* a message processed while a failure is pending: violation *)
+  | OPlanIn _ (Throw _) => Some false
+  | _ => Some a
+  end.
+Fixpoint s_list (a : bool) (os : list obs) : option bool :=
+  match os with
+  | [] => Some a
+  | o :: os' => match s_obs a o with None => None | Some a' => s_list a' os' end
+  end.
+Definition s_ev (a : bool) (e : event) : bool :=
+  match e with
+  | EvStatus _ false => true
+  | EvMain (ACall _) => false          (* a new call forgets the failures of the previous one *)
+  | _ => a
+  end.
+Fixpoint chk_status (a : bool) (tr : list (event * list obs)) : bool :=
+  match tr with
+  | [] => true
+  | (e, os) :: tr' => match s_list (s_ev a e) os with None => false | Some a' => chk_status a' tr' end
+  end.
